@@ -27,9 +27,15 @@ mkdir -p /verif/seeded/$NAME
 cp "$SEED/patch.diff" "$SEED/demo_test.go" /verif/seeded/$NAME/
 [ -f "$SEED/notes.txt" ] && cp "$SEED/notes.txt" /verif/seeded/$NAME/
 cd /verif
-git -C /repo apply "$SEED/patch.diff" || { echo "RESULT $NAME: cannot apply to /repo"; exit 2; }
-out=$(./run.sh $PROP quick 2>&1); rc=$?
-git -C /repo checkout -- . 
+if [ -n "${SEED_SCRATCH:-}" ]; then
+  # other runs are copying /repo's working tree right now: check the confirmed worktree instead of touching /repo
+  (cd "$WT" && git apply "$SEED/patch.diff") || { echo "RESULT $NAME: cannot re-apply in the worktree"; exit 2; }
+  out=$(bin/orbcheck -repo "$WT" -verif /verif -prop $PROP -tier quick -no-evidence 2>&1); rc=$?
+else
+  git -C /repo apply "$SEED/patch.diff" || { echo "RESULT $NAME: cannot apply to /repo"; exit 2; }
+  out=$(./run.sh $PROP quick 2>&1); rc=$?
+  git -C /repo checkout -- .
+fi
 det="MISSED"; [ $rc -eq 1 ] && det="DETECTED"
 rule=$(echo "$out" | grep -A1 "^VIOLATION" | grep "kind=" | head -3 | sed 's/^ *//' | tr '\n' '|')
 python3 - "$NAME" "$PROP" "$det" "$rule" <<'PY'
